@@ -33,9 +33,17 @@ def main():
             run.notes.append("model driver unavailable: correspondence skipped")
             os.environ["OSQ_NO_MODEL"] = "1"
             fn(run)
-    except Exception:
+    except (OSError, MemoryError, KeyboardInterrupt):
         traceback.print_exc()
         print(f"[{pid}] infrastructure failure"); return 2
+    except Exception as ex:
+        # The check itself never raises on the unchanged tree; when it does, the implementation handed it something
+        # (a value of another shape, an exception from an attribute access, ...) that no run on the unchanged tree produces.
+        # That is a failure on the input being processed, not an infrastructure problem: report it with the traceback.
+        traceback.print_exc()
+        tb = traceback.format_exc()
+        run.violation(f"check aborted by {type(ex).__name__}: {str(ex)[:200]} - the implementation produced something the check cannot process",
+                      {"traceback": tb[-3000:], "last_cases": run.samples[-2:]})
     return F.finish(run, pr)
 
 if __name__ == "__main__":
